@@ -19,7 +19,6 @@ import collections
 from collections.abc import Callable, Sequence
 import dataclasses
 import enum
-import functools
 import itertools
 from typing import Any
 
@@ -298,15 +297,15 @@ class _ThresholdedConfusionMatrix:
     self.p_trues += other.p_trues
     self.p_preds += other.p_preds
 
-  @functools.cached_property
+  @property
   def precision(self):
     return math_utils.safe_divide(self.tp_preds, self.p_preds)
 
-  @functools.cached_property
+  @property
   def recall(self):
     return math_utils.safe_divide(self.tp_trues, self.p_trues)
 
-  @functools.cached_property
+  @property
   def f1_score(self):
     return _f1_score(self.precision, self.recall)
 
